@@ -113,6 +113,7 @@ type Spec struct {
 	Features  []string
 	ExtPkgs   []ExtPkg
 	ExtraDecl string // extra package-level declarations (hostile identifiers)
+	ExtDecl   map[string]string // extra declarations per sibling package directory
 	Dynamic   bool   // all needed types carry identity; runnable
 	WireAltAliases bool // wire_sets.go imports every sibling package under another alias than wire.go
 	WireAllInSets  bool // every wire element goes into a named set (wire_sets.go)
